@@ -1123,3 +1123,75 @@ pub fn miri_cross_run(ctx: &mut Ctx, env: &Env, prop_id: &str, plan: &[MiriPlan]
     }
     let _ = std::fs::remove_dir_all(&dir);
 }
+
+// ---------------------------------------------------------------------------------------------
+// dev-profile stack probe (see /verif/stackprobe): payloads handled on a 2 MiB thread in an unoptimised build
+
+#[derive(Debug, Clone, PartialEq)]
+pub enum ProbeOutcome {
+    Ok,
+    Err,
+    Panic,
+    /// the probe process was killed by this signal while handling the payload (stack overflow => SIGABRT/SIGSEGV)
+    Killed(i32),
+}
+
+/// Runs the probe binary over `inputs` (name, payload); `front` = parse + analyse source text instead of
+/// decoding IR bytes. After a kill the remaining inputs are run in a new process. None = probe unusable.
+pub fn stack_probe(env: &Env, tag: &str, front: bool, inputs: &[(String, Vec<u8>)]) -> Option<Vec<(String, ProbeOutcome)>> {
+    use std::os::unix::process::ExitStatusExt;
+    let probe = env.target_dir.join("stackprobe").join("debug").join("tx3-stackprobe");
+    if !probe.exists() {
+        return None;
+    }
+    let dir = env.target_dir.join("runs").join(format!("{tag}-stackprobe-{}", std::process::id()));
+    let _ = std::fs::create_dir_all(&dir);
+    let mut results = vec![];
+    let mut pending: Vec<usize> = (0..inputs.len()).collect();
+    let mut rounds = 0;
+    while !pending.is_empty() && rounds < 200 {
+        rounds += 1;
+        let file = dir.join(format!("inputs-{rounds}.hex"));
+        let text: String = pending.iter().map(|i| hex::encode(&inputs[*i].1) + "\n").collect();
+        std::fs::write(&file, text).ok()?;
+        let mut cmd = std::process::Command::new(&probe);
+        if front {
+            cmd.arg("front");
+        }
+        let out = cmd.arg(&file).stdin(std::process::Stdio::null()).stderr(std::process::Stdio::null()).output().ok()?;
+        let stdout = String::from_utf8_lossy(&out.stdout).to_string();
+        let mut started: Option<usize> = None;
+        for line in stdout.lines() {
+            let mut it = line.split(' ');
+            let (Some(a), Some(b)) = (it.next(), it.next()) else { continue };
+            let Ok(k) = a.parse::<usize>() else { continue };
+            if k >= pending.len() {
+                continue;
+            }
+            match b {
+                "START" => started = Some(k),
+                "OK" | "ERR" | "PANIC" => {
+                    started = None;
+                    let o = match b {
+                        "OK" => ProbeOutcome::Ok,
+                        "ERR" => ProbeOutcome::Err,
+                        _ => ProbeOutcome::Panic,
+                    };
+                    results.push((inputs[pending[k]].0.clone(), o));
+                }
+                _ => {}
+            }
+        }
+        if out.status.success() {
+            pending.clear();
+        } else if let (Some(sig), Some(k)) = (out.status.signal(), started) {
+            results.push((inputs[pending[k]].0.clone(), ProbeOutcome::Killed(sig)));
+            pending = pending[k + 1..].to_vec();
+        } else {
+            let _ = std::fs::remove_dir_all(&dir);
+            return None;
+        }
+    }
+    let _ = std::fs::remove_dir_all(&dir);
+    Some(results)
+}
